@@ -493,7 +493,7 @@ C14Holds(c, r, st) ==
                 LET text == st.obs[<<r.a, "source">>].t
                     ma == st.obs[<<r.a, "map", col>>].map
                     mb == st.obs[<<r.b, "map", col>>].map
-                IN IF ~AsciiConsistent(st.heap[r.a])   \* positions are only resolved for ASCII
+                IN IF ~AsciiConsistent(st.heap[r.a]) /\ col   \* positions are only resolved for ASCII
                      THEN SegValsOfOptMap(ma) = SegValsOfOptMap(mb)
                    ELSE IF col THEN SameFull(ByteAttrsOfOptMap(ma, text), ByteAttrsOfOptMap(mb, text))
                    ELSE LineAttrsOfOptMap(ma, text) = LineAttrsOfOptMap(mb, text)
@@ -501,7 +501,8 @@ C14Holds(c, r, st) ==
          IF r.op = "map"
            THEN LET text == TextOf(st.heap[r.r])
                     old == st.obs[ObsKey(r)].map
-                IN IF ~AsciiConsistent(st.heap[r.r]) THEN SegValsOfOptMap(r.out.map) = SegValsOfOptMap(old)
+                IN IF ~AsciiConsistent(st.heap[r.r]) /\ r.columns
+                     THEN SegValsOfOptMap(r.out.map) = SegValsOfOptMap(old)
                    ELSE IF r.columns
                      THEN SameCore(ByteAttrsOfOptMap(r.out.map, text), ByteAttrsOfOptMap(old, text))
                      ELSE LineAttrsOfOptMap(r.out.map, text) = LineAttrsOfOptMap(old, text)
@@ -928,6 +929,12 @@ Holds(c, r, st) ==
 (* narrowly, so that any other violation is still reported.                 *)
 CachedBeneathReplace(t) == CachedUnderReplace(t)
 
+(* K4: a SourceMapSource with multi-byte text somewhere beneath a           *)
+(* CachedSource                                                             *)
+MultiByteCachedSms(t) ==
+  /\ {"cached", "sms"} \subseteq Kinds(t)
+  /\ ~IsAscii(TextOf(t))
+
 (* two attribution sequences that differ at most in the original column     *)
 OnlyColumnsDiffer(as, bs) ==
   /\ Len(as) = Len(bs)
@@ -958,7 +965,14 @@ KF(c, r, st) ==
            THEN "cached-beneath-replace-granularity" ELSE ""
     [] c = <<"C14", "equal_implies_same_answers">> ->
          LET text == st.obs[<<r.a, "source">>].t
-         IN IF CachedBeneathReplace(st.heap[r.a]) /\ ~AsciiConsistent(st.heap[r.a])
+         IN IF MultiByteCachedSms(st.heap[r.a]) /\ ~CachedBeneathReplace(st.heap[r.a])
+               /\ st.obs[<<r.a, "source">>].t = st.obs[<<r.b, "source">>].t
+               /\ \A col \in BOOLEAN :
+                    (HasObs(st, <<r.a, "map", col>>) /\ HasObs(st, <<r.b, "map", col>>)) =>
+                      LineAttrsOfOptMap(st.obs[<<r.a, "map", col>>].map, text)
+                        = LineAttrsOfOptMap(st.obs[<<r.b, "map", col>>].map, text)
+              THEN "multibyte-cached-sms-columns"
+            ELSE IF CachedBeneathReplace(st.heap[r.a]) /\ ~AsciiConsistent(st.heap[r.a])
                /\ st.obs[<<r.a, "source">>].t = st.obs[<<r.b, "source">>].t
               THEN "cached-beneath-replace-granularity"
             ELSE IF
@@ -974,7 +988,10 @@ KF(c, r, st) ==
     [] c = <<"C14", "observer_repeatable">> ->
          LET t == st.heap[r.r]
              text == TextOf(t)
-         IN IF CachedBeneathReplace(t) /\ r.op \in {"map", "stream"} /\ ~AsciiConsistent(t)
+         IN IF MultiByteCachedSms(t) /\ ~CachedBeneathReplace(t) /\ r.op = "map" /\ r.columns
+               /\ LineAttrsOfOptMap(r.out.map, text) = LineAttrsOfOptMap(st.obs[ObsKey(r)].map, text)
+              THEN "multibyte-cached-sms-columns"
+            ELSE IF CachedBeneathReplace(t) /\ r.op \in {"map", "stream"} /\ ~AsciiConsistent(t)
               THEN "cached-beneath-replace-granularity"
             ELSE IF
                /\ CachedBeneathReplace(t) /\ r.op \in {"map", "stream"}
